@@ -560,6 +560,11 @@ func GenCase(r *hx.Rng, m Mode) *Case {
 				gq.FieldDesc{Name: "mo0", Type: objs[r.Intn(len(objs))]})
 		}
 	}
+	if s.Mutation != nil && r.Chance(1, 5) {
+		// schema shape: ONE object type is both the query root and the mutation root (the operation kind, not the
+		// identity of the root type, decides between breadth-first and serial execution)
+		gen.ShareRoot(s)
+	}
 	opts := gen.ValidDocOpts{NoIntrospection: true, RootSpreadFirst: m.MutationOnly}
 	text, meta := gen.ValidDocWith(r, s, r.Range(1, 5), opts)
 	c := &Case{Schema: s, Query: text, World: GenWorld(r, s, m.Knobs(r)), Vars: map[string]interface{}{}}
